@@ -39,6 +39,22 @@ def feqPop : List (List Float) → List (List Float) → Bool
   | x :: xs, y :: ys => feqList x y && feqPop xs ys
   | _, _ => false
 
+/-- Comparison of repaired coordinates: `feq`, or an absolute difference within 1e-9 of the magnitude of
+the coordinate's own bounds (a result next to zero carries the rounding of arithmetic on the bounds). -/
+def feqIn (d : Float × Float) (x y : Float) : Bool :=
+  feq x y || (x - y).abs ≤ 1e-9 * (max d.1.abs d.2.abs)
+
+def feqSolDom (dom : List (Float × Float)) : List Float → List Float → Bool
+  | [], [] => true
+  | x :: xs, y :: ys =>
+    (match dom with | d :: _ => feqIn d x y | [] => feq x y) && feqSolDom (dom.drop 1) xs ys
+  | _, _ => false
+
+def feqPopDom (dom : List (Float × Float)) : List (List Float) → List (List Float) → Bool
+  | [], [] => true
+  | x :: xs, y :: ys => feqSolDom dom x y && feqPopDom dom xs ys
+  | _, _ => false
+
 def bitEqList (a b : List Float) : Bool := a.map Float.toBits == b.map Float.toBits
 def bitEqPop (a b : List (List Float)) : Bool := a.map (·.map Float.toBits) == b.map (·.map Float.toBits)
 
@@ -47,62 +63,144 @@ far larger so that a rewrite which folds later (or not at all for moderately dis
 therefore loops longer still agrees with the model, and far smaller than a hanging run takes. -/
 def mirrorFuel : Nat := 4000000
 
-/-- One application of operator `op` to a population; `none` = panic / fuel or script exhausted. -/
-def applyOp (op : String) (dom : List (Float × Float)) (pop : List (List Float)) (script : List Float) :
-    Option (List (List Float) × List Float) :=
+/-- The operator `op` as the driver `boundary_constraint` sees it (Model/Boundary.lean). -/
+def opOf (op : String) (dom : List (Float × Float)) : Option (List Float → List Float → Option (List Float × List Float)) :=
   match op with
-  | "sat" => (pop.mapM fun s => zipDomainM saturation s dom).map (·, script)
-  | "tor" => some (pop.map fun s => zipDomain (toroidal Float.floor) s dom, script)
-  | "mir" => (pop.mapM fun s => zipDomainM (mirror f64RemEuclid mirrorFuel) s dom).map (·, script)
-  | "otn" => oneTailedPopulation dom pop script
+  | "sat" => some (satOp dom)
+  | "tor" => some (torOp Float.floor dom)
+  | "mir" => some (mirOp f64RemEuclid mirrorFuel dom)
+  | "otn" => some (otnOp dom)
   | _ => none
+
+/-- One application of the real driver's model to a population stack (last = current);
+`none` = panic / fuel or script exhausted. -/
+def applyOp (op : String) (dom : List (Float × Float)) (stack : List (List (List Float))) (script : List Float) :
+    Option (List (List (List Float)) × List Float) :=
+  (opOf op dom).bind fun f => boundaryConstraint f stack script
 
 def verdict (agree holds : Bool) (cls : String) (model : Sexp) : Verdict :=
   { agree, holds, cls := if holds then "-" else cls, model }
 
+def slackOf (d : Float × Float) : Float := 4 * 2.220446049250313e-16 * (max d.1.abs d.2.abs)
+
 /-- First failing clause of the repair property on the implementation's output; every coordinate
-is judged against the range of ITS OWN dimension. -/
+is judged against the range of ITS OWN dimension.  Bounds are closed with 4 ulp slack (rounding of
+the bound arithmetic); a coordinate that was inside must come back bit-identical; the second
+application must return every coordinate that is exactly inside bit-identical, and keep one that is
+within the slack within the slack. -/
 def repairClass (dom : List (Float × Float)) (inp r1 r2 : List (List Float)) : String :=
-  let slack := fun (d : Float × Float) => 4 * 2.220446049250313e-16 * (max d.1.abs d.2.abs)
-  let sameShape := inp.map List.length == r1.map List.length
+  let inSlack := fun (x : Float) (d : Float × Float) => d.1 - slackOf d ≤ x && x ≤ d.2 + slackOf d
+  let sameShape := inp.map List.length == r1.map List.length && r1.map List.length == r2.map List.length
   if !sameShape then "dimension"
   else if r1.any (·.any Float.isNaN) then "nan"
-  else if r1.any (fun s => (s.zip dom).any fun (x, d) => !(d.1 - slack d ≤ x && x ≤ d.2 + slack d)) then "out-of-bounds"
+  else if r1.any (fun s => (s.zip dom).any fun (x, d) => !inSlack x d) then "out-of-bounds"
   else if (inp.zip r1).any (fun (s, t) => ((s.zip t).zip dom).any fun ((x, y), d) =>
       d.1 ≤ x && x ≤ d.2 && x.toBits != y.toBits)
     then "moved-inside"
-  else if !bitEqPop r1 r2 then "not-idempotent"
+  else if (r1.zip r2).any (fun (s, t) => ((s.zip t).zip dom).any fun ((y, z), d) =>
+      if d.1 ≤ y && y ≤ d.2 then y.toBits != z.toBits else !inSlack z d)
+    then "not-idempotent"
   else "-"
+
+def ofStack (tag : String) (st : List (List (List Float))) : Sexp :=
+  .list (.atom tag :: st.map (ofPop "pop"))
+
+def stack? (tag : String) (s : Sexp) : Option (List (List (List Float))) := do
+  let xs ← tagged? tag s
+  xs.mapM (pop? "pop")
+
+def bitEqStack (a b : List (List (List Float))) : Bool :=
+  a.map (·.map (·.map Float.toBits)) == b.map (·.map (·.map Float.toBits))
+
+def feqStack (dom : List (Float × Float)) : List (List (List Float)) → List (List (List Float)) → Bool
+  | [], [] => true
+  | x :: xs, y :: ys => feqPopDom dom x y && feqStack dom xs ys
+  | _, _ => false
+
+/-- Witness-based agreement for the resampling operator (DESIGN §5.5, §8: no draw-for-draw comparison):
+from the implementation's output read off, per repaired coordinate, the deviate that produces it in ONE
+pass (`s = (y − a)/σ` from below, `(b − y)/σ` from above, `σ = (b − a)/3`); the witness is legal iff every
+deviate is a non-negative finite number, the model's value `a + σ·s` / `b − σ·s` reproduces the output, and
+coordinates that were inside carry no deviate and are bit-identical. -/
+def otnWitnessOk (dom : List (Float × Float)) (inp r1 : List (List Float)) : Bool :=
+  inp.length == r1.length &&
+  (inp.zip r1).all fun (s, t) => s.length == t.length &&
+    ((s.zip t).zip dom).all fun ((x, y), d) =>
+      let a := d.1; let b := d.2; let sg := (b - a) / 3
+      if x < a then
+        let dev := (y - a) / sg
+        0.0 ≤ dev && dev.isFinite && feq (a + sg * dev) y || (a + sg * dev - y).abs ≤ 1e-9 * (max a.abs b.abs) && 0.0 ≤ dev
+      else if x > b then
+        let dev := (b - y) / sg
+        0.0 ≤ dev && dev.isFinite && feq (b - sg * dev) y || (b - sg * dev - y).abs ≤ 1e-9 * (max a.abs b.abs) && 0.0 ≤ dev
+      else x.toBits == y.toBits
+
+/-- `(bnd OP KIND dom SEED (pop ..))` (one population) and `(bnds OP KIND dom SEED (stack (pop ..) ..))`
+(a population stack, last = current): the model is the driver `boundaryConstraint` applied twice. -/
+def bndCore (op : String) (domS : Sexp) (stack : List (List (List Float))) (asStack : Bool) (impl : Sexp) :
+    Option Verdict := do
+  let dim := stack.foldl (fun m p => p.foldl (fun m s => max m s.length) m) 0
+  let dom ← dom? domS dim
+  -- the script is part of the implementation-side observation (twin generator)
+  let script : List Float := match impl with
+    | .list [_, _, w] => ((tagged? "w" w).bind fun xs => xs.mapM float?).getD []
+    | _ => []
+  let m1 := applyOp op dom stack script
+  let m2 := m1.bind fun (p, s) => applyOp op dom p s
+  let show1 := fun (tag : String) (st : List (List (List Float))) =>
+    if asStack then ofStack tag st else ofPop tag (st.getLast?.getD [])
+  let modelS : Sexp := match m1, m2 with
+    | some (p1, _), some (p2, _) => .list [show1 "r1" p1, show1 "r2" p2]
+    | _, _ => .atom (if stack.isEmpty then "panic" else if op == "mir" || op == "otn" then "timeout" else "panic")
+  match impl with
+  | .atom "timeout" =>
+    pure (verdict ((op == "mir" || op == "otn") && m1.isNone && !stack.isEmpty) false "timeout" modelS)
+  | .atom "panic" =>
+    -- an empty stack is outside the property (`current_mut` documents the panic): the model agrees, nothing is demanded
+    if stack.isEmpty then pure (verdict m1.isNone true "-" modelS)
+    else pure (verdict (op == "sat" && m1.isNone) false "panic" modelS)
+  | .list [.atom "e", _] => pure (verdict false false "err" modelS)
+  | .list [r1, r2, _] => do
+    let r1 ← if asStack then stack? "r1" r1 else (pop? "r1" r1).map ([·])
+    let r2 ← if asStack then stack? "r2" r2 else (pop? "r2" r2).map ([·])
+    let inpTop := stack.getLast?.getD []
+    let t1 := r1.getLast?.getD []
+    let t2 := r2.getLast?.getD []
+    let exact := match m1, m2 with
+      | some (p1, _), some (p2, _) => feqStack dom p1 r1 && feqStack dom p2 r2
+      | _, _ => false
+    -- frame: same height, everything below the current population bit-identical, after both applications
+    let frame := r1.length == stack.length && r2.length == stack.length && !stack.isEmpty &&
+      bitEqStack r1.dropLast stack.dropLast && bitEqStack r2.dropLast stack.dropLast
+    let cls := if !frame then "frame" else repairClass dom inpTop t1 t2
+    let agree := exact || (op == "otn" && frame && cls == "-" && otnWitnessOk dom inpTop t1 && bitEqPop t1 t2)
+    pure (verdict agree (cls == "-") cls modelS)
+  | _ => none
 
 def bnd (args : List Sexp) (impl : Sexp) : Option Verdict :=
   match args with
   | [.atom op, _kind, domS, _seed, pop] => do
     let inp ← pop? "pop" pop
-    let dim := inp.foldl (fun m s => max m s.length) 0
-    let dom ← dom? domS dim
-    -- the script is part of the implementation-side observation (twin generator)
-    let script : List Float := match impl with
-      | .list [_, _, w] => ((tagged? "w" w).bind fun xs => xs.mapM float?).getD []
-      | _ => []
-    let m1 := applyOp op dom inp script
-    let m2 := m1.bind fun (p, s) => applyOp op dom p s
-    let modelS : Sexp := match m1, m2 with
-      | some (p1, _), some (p2, _) => .list [ofPop "r1" p1, ofPop "r2" p2]
-      | _, _ => .atom (if op == "mir" || op == "otn" then "timeout" else "panic")
-    match impl with
-    | .atom "timeout" =>
-      pure (verdict (op == "mir" && m1.isNone || op == "otn" && m1.isNone) false "timeout" modelS)
-    | .atom "panic" => pure (verdict (op == "sat" && m1.isNone) false "panic" modelS)
-    | .list [.atom "e", _] => pure (verdict false false "err" modelS)
-    | .list [r1, r2, _] => do
-      let r1 ← pop? "r1" r1
-      let r2 ← pop? "r2" r2
-      let agree := match m1, m2 with
-        | some (p1, _), some (p2, _) => feqPop p1 r1 && feqPop p2 r2
-        | _, _ => false
-      let cls := repairClass dom inp r1 r2
-      pure (verdict agree (cls == "-") cls modelS)
-    | _ => none
+    bndCore op domS [inp] false impl
+  | _ => none
+
+def bnds (args : List Sexp) (impl : Sexp) : Option Verdict :=
+  match args with
+  | [.atom op, _kind, domS, _seed, st] => do
+    let stack ← stack? "stack" st
+    bndCore op domS stack true impl
+  | _ => none
+
+/-- `(rem x m)`: the carrier operation `f64::rem_euclid` itself (trusted-base tie of `f64RemEuclid`). -/
+def remCase (args : List Sexp) (impl : Sexp) : Option Verdict :=
+  match args with
+  | [x, m] => do
+    let x ← float? x
+    let m ← float? m
+    let r ← float? impl
+    let mine := f64RemEuclid x m
+    let same := mine.toBits == r.toBits || (mine.isNaN && r.isNaN)
+    pure (verdict same true "-" (ofFloat mine))
   | _ => none
 
 /-- `(EVAL sol)` entries of the printed population. -/
@@ -112,7 +210,19 @@ def inds? (s : Sexp) : Option (List (Bool × Sexp)) := do
     | .list [e, sol] => do pure ((← bool? e), sol)
     | _ => none
 
+/-- `(dom (a b) ..)` with natural-number bounds (integer-valued `RandomSpread`). -/
+def domNat? (s : Sexp) (dim : Nat) : Option (List (Nat × Nat)) := do
+  let xs ← tagged? "dom" s
+  let ps ← xs.mapM fun
+    | .list [a, b] => do pure ((← nat? a), (← nat? b))
+    | _ => none
+  pure (match ps with | [p] => List.replicate dim p | _ => ps)
+
 def init (args : List Sexp) (impl : Sexp) : Option Verdict :=
+  -- `RandomBitstring::new_uniform(n)` is `RandomBitstring::new(n, 0.5)`
+  let args : List Sexp := match args with
+    | .atom "bitsu" :: rest => Sexp.atom "bits" :: rest ++ [ofFloat 0.5]
+    | _ => args
   match args with
   | .atom kind :: n :: dim :: h :: _seed :: rest => do
     let n ← nat? n
@@ -146,7 +256,7 @@ def init (args : List Sexp) (impl : Sexp) : Option Verdict :=
       | "spread", [domS] => do
         let dom ← dom? domS dim
         let sols ← inds.mapM fun (_, s) => floats? s
-        let model := randomSpread dom n (fun i j => (sols.getD i []).getD j (0.0 / 0.0))
+        let model := randomSpread dom n (let arr := sols.toArray.map List.toArray; fun i j => (arr.getD i #[]).getD j (0.0 / 0.0))
         -- legality of the witness = `gen_range(a_j..b_j)`'s contract (half-open), per dimension
         let legal := sols.all fun s => (s.zip dom).all fun (x, d) => d.1 ≤ x && x < d.2
         let agree := bitEqPop model sols && legal && frame && uneval
@@ -154,9 +264,20 @@ def init (args : List Sexp) (impl : Sexp) : Option Verdict :=
           else if sols.any (·.length != dim) then "dimension" else if !uneval then "evaluated"
           else if sols.any (fun s => (s.zip dom).any fun (x, d) => !(d.1 ≤ x && x ≤ d.2)) then "out-of-bounds" else "-"
         pure (verdict agree (cls == "-") cls (ofPop "pop" model))
+      | "spreadn", [domS] => do
+        -- the same generic model `randomSpread`, instantiated with natural numbers
+        let dom ← domNat? domS dim
+        let sols ← inds.mapM fun (_, s) => nats? s
+        let model := randomSpread dom n (let arr := sols.toArray.map List.toArray; fun i j => (arr.getD i #[]).getD j 0)
+        let legal := sols.all fun s => (s.zip dom).all fun (x, d) => d.1 ≤ x && x < d.2
+        let agree := model == sols && legal && frame && uneval
+        let cls := if !frame then "stack" else if sols.length != n then "count"
+          else if sols.any (·.length != dim) then "dimension" else if !uneval then "evaluated"
+          else if sols.any (fun s => (s.zip dom).any fun (x, d) => !(d.1 ≤ x && x ≤ d.2)) then "out-of-bounds" else "-"
+        pure (verdict agree (cls == "-") cls (.list (model.map ofNats)))
       | "perm", _ => do
         let sols ← inds.mapM fun (_, s) => nats? s
-        let model := randomPermutation dim n (fun i => sols.getD i [])
+        let model := randomPermutation dim n (let arr := sols.toArray; fun i => arr.getD i [])
         let legal := sols.all (isPermOfRange · dim)
         let agree := model == some sols && legal && frame && uneval
         let cls := if !frame then "stack" else if sols.length != n then "count"
@@ -170,7 +291,7 @@ def init (args : List Sexp) (impl : Sexp) : Option Verdict :=
           | .list xs => xs.mapM bool?
           | _ => none
         let pValid := 0.0 ≤ p && p ≤ 1.0
-        let model := randomBitstring dim n pValid (fun i j => (sols.getD i []).getD j false)
+        let model := randomBitstring dim n pValid (let arr := sols.toArray.map List.toArray; fun i j => (arr.getD i #[]).getD j false)
         let legal := (p != 0.0 || sols.all (·.all (!·))) && (p != 1.0 || sols.all (·.all id))
         let agree := model == some sols && legal && frame && uneval
         let cls := if !frame then "stack" else if sols.length != n then "count"
@@ -183,6 +304,8 @@ def init (args : List Sexp) (impl : Sexp) : Option Verdict :=
 def c14 (input implOut : Sexp) : Option Verdict :=
   match input with
   | .list (.atom "bnd" :: args) => bnd args implOut
+  | .list (.atom "bnds" :: args) => bnds args implOut
+  | .list (.atom "rem" :: args) => remCase args implOut
   | .list (.atom "init" :: args) => init args implOut
   | _ => none
 
